@@ -106,14 +106,13 @@ class FunctionCall:
             self._assert_param_has_type_annotation(param=param)
 
             if param.default is inspect.Signature.empty:
-                if self.func.should_have_kwargs:
-                    if key not in self.kwargs:
-                        raise PedanticTypeCheckException(f'{self.func.err}Parameter "{key}" is unfilled.')
-
+                if key in self.kwargs:
                     actual_value = self.kwargs[key]
-                else:
+                elif not self.func.should_have_kwargs and arg_index < len(self.args):
                     actual_value = self.args[arg_index]
                     arg_index += 1
+                else:
+                    raise PedanticTypeCheckException(f'{self.func.err}Parameter "{key}" is unfilled.')
             else:
                 if key in self.kwargs:
                     actual_value = self.kwargs[key]
